@@ -483,6 +483,9 @@ impl TypedStmt {
                 vec![]
             }
             StmtEnum::VarAssign(identifier, accessors, value) => {
+                // The assigned value is evaluated before the place is read (as in Rust), so that
+                // assignments inside of the value expr are not overwritten by a stale copy:
+                let mut value = value.compile(prg, env, circuit);
                 let mut collection = env.get(identifier).unwrap();
                 let mut accessed = vec![];
                 enum Assign {
@@ -609,7 +612,6 @@ impl TypedStmt {
                         }
                     }
                 }
-                let mut value = value.compile(prg, env, circuit);
                 for assign in accessed.into_iter().rev() {
                     match assign {
                         Assign::Array(mut array, elem_bits, size, mut index) => {
